@@ -202,6 +202,21 @@ func (rcSuite) Run(h map[string]string, ops []string) []string {
 			}
 			return "bad-op"
 		}()
+		// C14's conservation, sequentially, after EVERY operation (at the operation's own instant, so that nothing moves):
+		// the rolling sum is the sum of the buckets and lies within [0, total]
+		if f := strings.Fields(op); n > 0 && len(f) == 2 && out[i] != "panic" {
+			func() {
+				defer func() { _ = recover() }()
+				t := timeAt(origin, atoi(f[1]))
+				sum := int64(0)
+				for _, b := range c.GetBuckets(t) {
+					sum += b
+				}
+				if r := c.RollingSumAt(t); r != sum || r < 0 || r > c.TotalSum() {
+					out[i] = fmt.Sprintf("conservation-broken:rolling=%d,buckets=%d,total=%d", r, sum, c.TotalSum())
+				}
+			}()
+		}
 	}
 	return out
 }
